@@ -554,6 +554,17 @@ pub fn main_c08(ctx: &Ctx) -> ! {
         st.inputs.fetch_add(1, Ordering::Relaxed);
         st.outcomes.lock().unwrap().extend(local);
     });
+    // xml5ever: the same option independence (exact_errors, discard_bom) over the XML corpus, one-chunk and
+    // one-cut schedules; the shared routine reports under this check's property
+    let xml_inputs = crate::c15::corpus(ctx.tier);
+    {
+        let xst = crate::c15::Stats { evals: AtomicU64::new(0), outcomes: Mutex::new(BTreeSet::new()) };
+        xml_inputs.par_iter().for_each(|input| {
+            let mut local = BTreeSet::new();
+            crate::c15::check_input(ctx, &xst, input, 1, 0, &mut local);
+        });
+        st.evals.fetch_add(xst.evals.load(Ordering::Relaxed), Ordering::Relaxed);
+    }
     // tree level: tb exact_errors x tok exact_errors x drop_doctype x discard_bom
     let mut trc = tree_corpus(ctx.tier);
     for dt in ["<!DOCTYPE html>", "<!DOCTYPE x PUBLIC \"-//W3C//DTD HTML 4.01 Frameset//\">x", "<!DOCTYPE html SYSTEM \"about:legacy-compat\"><p>", "\u{feff}<!DOCTYPE html>a", "<!-- c --><!DOCTYPE html PUBLIC \"-//W3O//DTD W3 HTML 3.0//\">"] {
@@ -642,6 +653,7 @@ pub fn main_c08(ctx: &Ctx) -> ! {
             "inputs": st.inputs.load(Ordering::Relaxed),
             "profile_slice_cases": prof_cases,
             "simd_window_strings": n_windows,
+            "xml_inputs": xml_inputs.len(),
             "rule": format!("corpus x schedules with <= {max_cuts} cuts x option vectors (tokenizer exact_errors x discard_bom; tree: tokenizer/tree-builder exact_errors x drop_doctype x discard_bom; profile on an exhaustive slice): token stream minus ParseError tokens, non-character token lines, final tree, quirks mode and encoding indicators identical to the default-options run under the same schedule; permitted differences: a leading U+FEFF (discard_bom), the doctype child (drop_doctype)"),
             "exhaustive": true,
             "samples": ["xxxxxxxxxxxxxxx\\r\\nx exact_errors=true vs false", "<!DOCTYPE html>a drop_doctype", "\\ufeffa discard_bom=false"],
